@@ -182,6 +182,8 @@ def rng(e, ctx):
         if a and b:
             return (min(a[0], b[0]), max(a[1], b[1]))
         return tr
+    if k == "Call" and (e.get("callee") or {}).get("builtin") and (ir.callee_name(e) or "").startswith(("__builtin_clz", "__builtin_ctz", "__builtin_popcount", "__builtin_ffs")):
+        return (0, 64)              # bit counts of an operand of at most 64 bits
     if tr is None:
         return None
     # variables / members / calls: type range refined by guards
